@@ -37,6 +37,8 @@ func main() {
 				header = os.Args[6]
 			}
 			genSched(seed, n, os.Args[5], header)
+		case "cla":
+			genCla(seed, n, os.Args[5])
 		default:
 			os.Exit(2)
 		}
@@ -46,6 +48,8 @@ func main() {
 			execIndex(os.Args[3], os.Args[4])
 		case "sched":
 			execSched(os.Args[3], os.Args[4])
+		case "cla":
+			execCla(os.Args[3], os.Args[4])
 		default:
 			os.Exit(2)
 		}
@@ -55,6 +59,8 @@ func main() {
 			oracleIndex(os.Args[3], os.Args[4])
 		case "sched":
 			oracleSched(os.Args[3], os.Args[4])
+		case "cla":
+			oracleCla(os.Args[3], os.Args[4])
 		default:
 			os.Exit(2)
 		}
